@@ -737,6 +737,10 @@ def explore(fn, max_paths=100000):
 
 
 # ------------------------------------------------------------------ symbolic values
+class OutOfBound(BaseException):
+    """path left the stated bound (e.g. harmonic index above K, a thin undecidable shell of a magnitude comparison); recorded, not a verdict"""
+
+
 class SBool:
     """lazily decided condition"""
     __slots__ = ('fn',)
@@ -793,15 +797,18 @@ class SC:
         return NotImplemented
 
     def __add__(s, o):
+        if isinstance(o, float) and o in _INF: return o          # symbolic values are finite: finite + inf = inf
         o = SC.lift(o)
         return o if o is NotImplemented else SC(s.p + o.p)
     __radd__ = __add__
 
     def __sub__(s, o):
+        if isinstance(o, float) and o in _INF: return -o
         o = SC.lift(o)
         return o if o is NotImplemented else SC(s.p - o.p)
 
     def __rsub__(s, o):
+        if isinstance(o, float) and o in _INF: return o
         o = SC.lift(o)
         return o if o is NotImplemented else SC(o.p - s.p)
 
@@ -1045,24 +1052,41 @@ class SAbs:
             raise Inconclusive('magnitude comparison of a complex symbolic value against a non-zero bound')
         return z if CTX.decide_pos(z.p, strict=False) else -z
 
+    def _below(s, o, strict):
+        """|z| < o (strict) or |z| <= o for a bound o.  Real z: exact.  Complex z with a numeric bound: decided in the two regions where the
+        comparison of the components settles it (both |Re|, |Im| <= o/sqrt2  =>  below;  |Re| > o or |Im| > o  =>  above), inconclusive in
+        the thin shell between them"""
+        z = s.z
+        if CTX.is_real_poly(z.p):
+            a = s._real_abs()
+            return bool(a < o) if strict else bool(a <= o)
+        if not isinstance(o, (int, float, F)) or isinstance(o, bool):
+            raise Inconclusive('magnitude comparison of a complex symbolic value against a symbolic bound')
+        c = F(o).limit_denominator(10 ** 30) if isinstance(o, float) else F(o)
+        inner = c * F(70710678, 100000000)
+        re = SAbs(z.real); im = SAbs(z.imag)
+        if re._below(inner, False) and im._below(inner, False): return True
+        if (not re._below(c, False)) or (not im._below(c, False)): return False
+        raise OutOfBound('magnitude of a complex symbolic value within a factor sqrt(2) of the bound it is compared with')
+
     def __gt__(s, o):
         if isinstance(o, (int, float)) and o == 0:
             return s.z != 0
-        return SBool(lambda: bool(s._real_abs() > o))
+        return SBool(lambda: not s._below(o, False))
 
     def __ge__(s, o):
         if isinstance(o, (int, float)) and o == 0: return True
-        return SBool(lambda: bool(s._real_abs() >= o))
+        return SBool(lambda: not s._below(o, True))
 
     def __lt__(s, o):
         if isinstance(o, (int, float)) and o == 0: return False
-        return SBool(lambda: bool(s._real_abs() < o))
+        return SBool(lambda: s._below(o, True))
 
     def __le__(s, o):
         if isinstance(o, (int, float)) and o == 0:
             r = (s.z == 0)
             return r
-        return SBool(lambda: bool(s._real_abs() <= o))
+        return SBool(lambda: s._below(o, False))
 
     def value(s):
         return s._real_abs()
